@@ -56,11 +56,10 @@ def make_bp(schema, modname=None):
     mod.datetime, mod.timedelta = datetime, timedelta
     classes = {}
     for ename, members in schema.get("enums", {}).items():
-        ns = betterproto.Enum.__class__.__prepare__(ename, (betterproto.Enum,))
+        ns = {"__module__": modname}
         for n, v in members:
             ns[n] = v
-        ecls = betterproto.Enum.__class__(ename, (betterproto.Enum,), ns)
-        ecls.__module__ = modname
+        ecls = type(betterproto.Enum)(ename, (betterproto.Enum,), ns)
         setattr(mod, ename, ecls)
         classes[ename] = ecls
     for ty, fields in schema["types"].items():
@@ -140,10 +139,8 @@ def conc_bp_single(schema, C, f, kind, a):
     if k == "bytes":
         return bytes(a["b"])
     if k == "msg":
-        m = conc_bp(schema, C, f["msg"], a["m"])
-        if not any(x.get("k") != "unset" for x in a["m"].values()):
-            m._serialized_on_wire = True      # an explicitly present empty message ("something was assigned")
-        return m
+        # every non-unset member (defaults included) is passed to the constructor, which marks the message present
+        return conc_bp(schema, C, f["msg"], a["m"])
     if k == "ts":
         return av.us_dt(av.unint(a["us"]))
     if k == "dur":
@@ -192,7 +189,7 @@ def obs_bp_single(schema, f, kind, v):
     if kind == "message":
         if not isinstance(v, betterproto.Message):
             raise ObsError("field %s holds %r, not a message" % (f["name"], type(v).__name__))
-        return {"k": "msg", "m": obs_bp(schema, v, f["msg"]), "unk": list(v._unknown_fields)}
+        return {"k": "msg", "m": obs_bp(schema, v, f["msg"])}
     if kind == "timestamp":
         if not isinstance(v, datetime):
             raise ObsError("field %s holds %r, not a datetime" % (f["name"], type(v).__name__))
@@ -446,7 +443,7 @@ def obs_ref(schema, m, ty):
 
 def _obs_ref_single(schema, f, kind, v):
     if kind == "message":
-        return {"k": "msg", "m": obs_ref(schema, v, f["msg"]), "unk": list(_ref_unknown(v))}
+        return {"k": "msg", "m": obs_ref(schema, v, f["msg"])}
     if kind == "timestamp":
         return {"k": "tsn", "s": av.rawint(v.seconds), "n": av.rawint(v.nanos)}
     if kind == "duration":
